@@ -784,7 +784,7 @@ class TransferManager(BaseManager):
 
         4. Calculate the transfer offset and send it
 
-           * In case this fails: put transfer to INCOMPLETE
+           * In case this fails: put the transfer back to QUEUED
 
         5. Start downloading, see :meth:`_download_file` : exception cases are
            handled internally by this method
@@ -836,7 +836,10 @@ class TransferManager(BaseManager):
             if transfer.is_upload():
                 await transfer.state.fail()
             else:
-                await transfer.state.incomplete()
+                # The transfer is still INITIALIZING, a state from which it
+                # cannot go to INCOMPLETE: put it back in the queue otherwise
+                # it would remain INITIALIZING forever
+                await transfer.state.queue()
             return
 
         except asyncio.CancelledError:
